@@ -17,8 +17,8 @@ Not propagating positions (and deliberately not constructors): NotAny, `stop_on`
 `notany_treats_fatal_as_nonmatch`), Or (raises a collected fatal only if nothing matched:
 `or_fatal_only_if_none_matched`), Each (outside the model).
 Propagating in the code but NOT covered by a constructor here: the alternative re-parsed by Or after its trial pass,
-the ignore-expressions run by the pre-parse that Or and StringStart do inside their `parseImpl`, and LineStart's
-own `preParse`.
+and the ignore-expressions run by the pre-parse that Or and StringStart do inside their `parseImpl`
+(LineStart's own `preParse` runs no sub-expression: `Step.ignore` excludes it).
 -/
 namespace PP.Parse
 
@@ -178,5 +178,47 @@ theorem exFatal_path :
 
 example : parse exFatal ['a', 'b'] 5 0 0 true true = .fail .fatal 1 :=
   fatal_propagates_exact exFatal_path .fatal 1 (by rfl) rfl
+
+/-- SkipTo target: `SkipTo("a" - "b")` on `"xac"` — the scan passes `x` (soft failure of the target), then the
+    target gets past its `-` at 1 and fails at 2: the SkipTo does not go on scanning, it raises -/
+def exSkip : Grammar :=
+  let l (c : Char) : Node := { kind := .lit1 c, skipWs := true, white := [' '], callPre := true, mayIdx := false,
+                               ignore := [], acts := [], callDuringTry := false, nameLen := 3 }
+  [ { l 'a' with kind := .skipTo 1 false none none }, { l 'a' with kind := .and [2, 3, 4] },
+    l 'a', { l 'a' with kind := .errorStop }, l 'b' ]
+
+theorem exSkip_path :
+    Path exSkip ['x', 'a', 'c'] [.plain] ⟨5, 0, 0, true, true⟩ ⟨4, 1, 1, false, false⟩ :=
+  .cons (.mk (nd := exSkip[0]) (pre := 0) rfl rfl
+    (.skipScan (k := 3) (tmploc := 1) (t := 1) rfl
+      (.iter (tmploc := 0) (t := 0) (by decide) rfl rfl rfl (.refl _ _)) (by decide) rfl rfl)) (.refl _)
+
+example : parse exSkip ['x', 'a', 'c'] 5 0 0 true true = .fail .syntax 2 :=
+  errorstop_any_depth exSkip_path
+    (.mk (nd := exSkip[1]) (pre := 1) rfl rfl
+      (.andLater (pfx := [3]) (post := []) (l0 := 2) (ts0 := [.s ['a']]) (stop := true) (acc := [.s ['a']])
+        rfl rfl rfl rfl) : Step exSkip ['x', 'a', 'c'] .afterStop ⟨4, 1, 1, false, false⟩ ⟨3, 4, 2, false, true⟩)
+    .parse 2 rfl
+
+/-- ignore-expression: `Literal("a").ignore("#" - "!")` on `"#?a"` — the pre-parse of the literal runs the
+    ignore-expression, which gets past its `-` and fails: the element does not treat that as "nothing to ignore" -/
+def exIgn : Grammar :=
+  let l (c : Char) : Node := { kind := .lit1 c, skipWs := true, white := [' '], callPre := true, mayIdx := false,
+                               ignore := [], acts := [], callDuringTry := false, nameLen := 3 }
+  [ { l 'a' with ignore := [1] }, { l 'a' with kind := .and [2, 3, 4] },
+    l '#', { l 'a' with kind := .errorStop }, l '!' ]
+
+theorem exIgn_path :
+    Path exIgn ['#', '?', 'a'] [.plain] ⟨5, 0, 0, true, true⟩ ⟨4, 1, 0, true, true⟩ :=
+  .cons (.ignore (nd := exIgn[0]) rfl rfl (by intro x y h; cases h) rfl
+    (.mk (k := 4) (loc1 := 0) (pfx := []) (post := []) (l1 := 0) (f1 := false) (j := 4)
+      (.refl _ _) rfl rfl (.refl _ _))) (.refl _)
+
+example : parse exIgn ['#', '?', 'a'] 5 0 0 true true = .fail .syntax 1 :=
+  errorstop_any_depth exIgn_path
+    (.mk (nd := exIgn[1]) (pre := 0) rfl rfl
+      (.andLater (pfx := [3]) (post := []) (l0 := 1) (ts0 := [.s ['#']]) (stop := true) (acc := [.s ['#']])
+        rfl rfl rfl rfl) : Step exIgn ['#', '?', 'a'] .afterStop ⟨4, 1, 0, true, true⟩ ⟨3, 4, 1, true, true⟩)
+    .parse 1 rfl
 
 end PP.Parse
